@@ -11,7 +11,7 @@
    operation list follows the decReaderI protocol (Model.pre_ok), [abides] that the
    script has fewer than maxConsecutiveEmptyReads zero-length reads in a row. *)
 From Coq Require Import List NArith ZArith Arith Lia Bool.
-From Verif Require Import Gen.Consts C03.Model C03.Proofs C03.ProofsB.
+From Verif Require Import Gen.Consts C03.Model C03.ModelR C03.Proofs C03.ProofsB C03.ProofsR.
 Import ListNotations.
 
 (* Refinement: every configuration (any ReaderBufferSize: unbuffered and buffered,
@@ -73,6 +73,62 @@ Proof.
   unfold bad in B. repeat apply conj; intros E; apply B; auto.
 Qed.
 Print Assumptions C03_total.
+
+(* A REUSED reader (Decoder.Reset(newReader)): [resetIO c s0 d sc f] is the state
+   ioDecReader.resetIO leaves when it is called in state s0 (C03/ModelR.v). For
+   EVERY previous state s0 -- whatever the Decoder read before: its previous
+   Reader drained to io.EOF (done set), a sticky error pending, in the middle of a
+   recording, unread bytes left in the buffer, a grown buffer -- the run over the
+   new reader refines the specification run over the NEW bytes alone. *)
+Theorem C03_reset_refines : forall (c : cfg) (s0 : st) (d : list N) (sc : list resp) (ops : list rop),
+  abides sc -> respects (bufio c) (sinit d) ops = true ->
+  map erase (run_io c (resetIO c s0 d sc KEof) ops) = run_spec (sinit d) ops.
+Proof. exact reset_refines. Qed.
+Print Assumptions C03_reset_refines.
+
+(* ... and a new reader that ends early still makes the reused reader fail, with a real error class *)
+Theorem C03_reset_truncated : forall (c : cfg) (s0 : st) (d : list N) (sc : list resp) (f : ek) (ops : list rop),
+  f = KEof \/ f = KHard -> abides sc -> respects (bufio c) (sinit d) ops = true ->
+  In TErr (run_spec (sinit d) ops) ->
+  exists k, In (EErr k) (run_io c (resetIO c s0 d sc f) ops) /\ k <> KFuel /\ k <> KUnmodelled /\ k <> KNone.
+Proof. exact reset_truncated. Qed.
+Print Assumptions C03_reset_truncated.
+
+(* A whole life: any number of earlier segments (any data, ANY script -- also
+   contract-breaking ones --, any operation lists -- also ones outside the
+   protocol or failing; [sfail] stands for the state a failed segment leaves),
+   each entered through resetIO: the last segment refines the specification run
+   over its own bytes. *)
+Theorem C03_session_refines : forall (c : cfg) (sfail s0 : st) (hist : list seg) (d : list N) (sc : list resp) (ops : list rop),
+  abides sc -> respects (bufio c) (sinit d) ops = true ->
+  map erase (run_sess c sfail s0 hist d sc KEof ops) = run_spec (sinit d) ops.
+Proof. intros c sfail s0 hist. exact (sess_refines c sfail hist s0). Qed.
+Print Assumptions C03_session_refines.
+
+(* a new reader is the reset of the zero value *)
+Theorem C03_init_is_reset : forall c d sc f, init c d sc f = resetIO c (st0 0) d sc f.
+Proof. exact init_is_reset. Qed.
+Print Assumptions C03_init_is_reset.
+
+(* non-vacuity of the reset statements: a 3-byte-buffered reader whose first Reader
+   (the number 12, which only io.EOF ends) was drained -- the state before the reset
+   has done = true and the sticky io.EOF, every further read fails --; after resetIO the second
+   stream ({"a":7} delivered 2 bytes at a time, the last together with io.EOF) reads
+   like the bytes. Keeping [done] across the reset would make the first SkipWs fail. *)
+Example C03_reset_nonvacuous :
+  let c := mkcfg 3 0 false in
+  let d2 := [123; 34; 97; 34; 58; 55; 125]%N in
+  let sc2 := [mkresp 2 false; mkresp 2 false; mkresp 2 false; mkresp 2 true] in
+  let ops2 := [SkipWs; Readn1; ReadAsis; SkipWs; SkipWs; ReadNum] in
+  match final_st c (init c [49; 50]%N [] KEof) [SkipWs; ReadNum] with
+  | Some s0 =>
+      done s0 = true /\ perr s0 = KEof /\ step c s0 SkipWs = Err KEof /\
+      respects true (sinit d2) ops2 = true /\
+      map erase (run_io c (resetIO c s0 d2 sc2 KEof) ops2) = run_spec (sinit d2) ops2 /\
+      length (run_spec (sinit d2) ops2) = 6 /\ last (run_spec (sinit d2) ops2) TErr <> TErr
+  | None => False
+  end.
+Proof. vm_compute. repeat apply conj; try reflexivity. discriminate. Qed.
 
 (* non-vacuity: one byte at a time with zero-length reads in between, through 1-,
    3- and 64-byte buffers and unbuffered, with and without ReadByte: the premises
